@@ -166,9 +166,6 @@ def splice(text, metas, contracts, unit_name):
             used_contracts.add(m["name"])
         seg = _splice_fn(seg, m, c)
         text = text[:seg_start] + seg + text[end:]
-    for name in contracts:
-        if name not in used_contracts:
-            raise Undecided("contract for %s has no extracted function in unit %s" % (name, unit_name))
     # remove unused markers
     text = re.sub(r"^[ \t]*__rws_pt!\([A-Za-z0-9_]+\);[ \t]*\n", "", text, flags=re.M)
     left = re.findall(r"__rws_(?:pt|loop|iter)!\([^)]*\)", text)
@@ -222,7 +219,7 @@ def _splice_fn(seg, m, c):
     fn_line_start = header_wo.rfind("\n", 0, header_wo.rfind("fn ")) + 1
     header_new = (header_wo[:fn_line_start] + "// @@FN %s\n" % m["name"] + attrs + header_wo[fn_line_start:] + ret_txt
                   + "\n" + clauses + "{\n")
-    if c:
+    if c and m["mode"] != "assume":
         # marker splices (the entry marker is handled like any other)
         at = dict(c["at"])
         if "entry" in at:
